@@ -24,6 +24,20 @@ CLAIMED = {
         "DESIGN.md section 8, C15",
         "seeded search over configurations x silence instants x send-error phases; bounded liveness after faults stop",
     ),
+    "C05": (
+        "exploration",
+        "Node level: 2-3 real nodes, every pair configured in one or both directions (dual open), staggered starts; a fault phase of 0-900 s with a per-run subset of {loss 10-100 %, duplication, delay up to 90 s, jitter up to 5 s, one- and two-way partitions with heals, node stalls, send errors}, then a reliable phase. Oracle (bounded liveness after faults stop): all pairs mutually connected and a marked probe frame delivered byte-identical in both directions within peer timeout + retry horizon (120 retries x 2 s housekeeping period) + 10 s + 2 x the reconnect back-off reached when faults stop, counted from the landing time of the last delayed datagram; no unwind in any step.",
+        "Trusted: simulator seams; the bound uses the housekeeping period the event loop really has (every other second), see DESIGN.md. The pair-level agreement clauses (same key/cipher/roles, exactly one rotation starter, payload as offered, at most one completion per attempt) are decided by the L1 pair scenarios of this check once built; until then they are covered only indirectly through the probe-delivery oracle.",
+        "DESIGN.md section 8, C05",
+        "seeded adversarial network then reliable phase; bounded liveness",
+    ),
+    "C14": (
+        "exploration",
+        "Meshes: random connected labelled bootstrap graphs on 2-6 nodes (thorough: up to 8) with per-edge dial orientation, address-filtering NAT per node, nodes behind translating NATs with port forwards (seen and reached under a public address only), 0-9 advertised unreachable addresses per node, staggered starts, reliable network. Oracle: every pair mutually connected within (diameter+2) announcement intervals of 90 s + 60 s (10 intervals with NAT) and still 400 s later. Self-dial: node 0 behind a translating NAT; its datagrams to its public address come back with source in {own socket, public address, third address}; it dials the address because it is configured, advertised, or only listed by peers; alone and inside a 2-3 node mesh. Invariant after every step: no node lists itself as a peer (by node id or by an address that reaches it); an address listed under the node's identity is adopted at once, must be adopted when peers reach the node through it, and is not dialled while adopted.",
+        "Trusted: simulator seams, the NAT models (address filtering with 300 s mappings as in the in-tree MockSocket; translating NAT with port forward; internal addresses unroutable from outside). Graph space is sampled, not enumerated.",
+        "DESIGN.md section 8, C14",
+        "seeded search over bootstrap graphs x NAT kinds x hair-pin source addresses; bounded liveness + invariant",
+    ),
 }
 
 NOT_APPLICABLE = {
